@@ -476,8 +476,10 @@ def get_paragraph_data(text, remove_pgp_signature=False):
         value = value.strip()
         if name in data:
             existing_values = data.get(name, '').splitlines()
-            if value not in existing_values:
-                value = '\n'.join(existing_values + [value])
+            if value in existing_values:
+                # already merged: keep what we have
+                continue
+            value = '\n'.join(existing_values + [value])
         data[name] = value
 
     return data
